@@ -345,7 +345,7 @@ func genC36(c *hlib.Ctx) {
 		if rr.Chance(1, 3) {
 			c.Do(fmt.Sprintf("ds.read %d %d %s", r, nc, field), len(ts) > 0)
 		}
-		if len(ts) > 0 && len(ts) <= 400 && nc >= 1 && rr.Chance(1, 8) {
+		if len(ts) > 0 && len(ts) <= 400 && nc >= 1 && rr.Chance(1, c.N(8, 24)) {
 			genRanges(c, r, nc, ts, field, 8)
 		}
 	}
